@@ -143,7 +143,8 @@ Ltac untranslated Hin := exfalso; vm_compute in Hin; discriminate Hin.
 
 (* replace every atomic test by its value, then compute; contradictory combinations are closed by lia *)
 Ltac atoms :=
-  repeat match goal with |- context [beq (?a :: ?l) (pyslice ?m ?i ?j)] => rewrite (beq_sym (a :: l) (pyslice m i j)) end;
+  repeat match goal with |- context [beq ?x (pyslice ?m ?i ?j)] =>
+           lazymatch x with pyslice _ _ _ => fail | _ => rewrite (beq_sym x (pyslice m i j)) end end;
   repeat match goal with
          | |- context [(?x ++ [])%list] => rewrite (app_nil_r x)
          | |- context [beq ?x ?y] => destruct (beq x y) eqn:?; cbn [f_payload]
